@@ -752,6 +752,16 @@ def p8(ctx: Ctx):
     pops = [n for n in ast.walk(vn) if isinstance(n, ast.Call) and isinstance(n.func, ast.Attribute) and n.func.attr == "pop" and is_self_attr(n.func.value, stack)]
     if not pops:
         raise IdiomNotFound("stack pop idiom not recognised")
+    # `del stack[-len(vars):]` removes one entry per listed variable in one step
+    del_slices = [
+        d
+        for d in ast.walk(vn)
+        if isinstance(d, ast.Delete)
+        and any(
+            isinstance(t, ast.Subscript) and is_self_attr(t.value, stack) and isinstance(t.slice, ast.Slice) and t.slice.upper is None and isinstance(t.slice.lower, ast.UnaryOp) and isinstance(t.slice.lower.op, ast.USub) and isinstance(t.slice.lower.operand, ast.Call) and call_name(t.slice.lower.operand) == "len"
+            for t in d.targets
+        )
+    ]
     # every pop is inside an `if` that requires the explicit list to be empty?
     guarded_empty_only = True
     for pnode in pops:
@@ -759,13 +769,15 @@ def p8(ctx: Ctx):
         if not any(re.search(r"len\([\w.]+\)\s*==\s*0|not\s+[\w.]+exp_list", c) for c in conds):
             guarded_empty_only = False
     # is there any pop (or equivalent removal) on the path where the NEXT names variables?
-    named_path_pops = not guarded_empty_only or any(
+    named_path_pops = bool(del_slices) or not guarded_empty_only or any(
         isinstance(n, ast.For) and any(isinstance(c, ast.Call) and isinstance(c.func, ast.Attribute) and c.func.attr in ("pop", "remove") for c in ast.walk(n)) for n in ast.walk(vn)
     )
     # on the path with an explicit list, one loop is closed per listed variable: the pop must repeat
     if named_path_pops:
         named = [pn for pn in pops if not any(re.search(r"len\([\w.]+\)\s*==\s*0|not\s+[\w.]+exp_list", c) for c in _enclosing_tests(vn, pn))]
-        if named:
+        if del_slices:
+            ctx.ob("BasicNextPatcherVisitor.named-next:per-variable", True, file=VISITORS_REL, line=del_slices[0].lineno)
+        elif named:
             in_loop = False
             for pn in named:
                 for n in ast.walk(vn):
